@@ -44,6 +44,12 @@ func drain(version int, ctx *protocol.Context, rb *ringbuffer.RingBuffer, chunk 
 			s, failed = "err", true
 		case done:
 			s = "pkt " + showPacket(pk)
+			// the application keeps the packet (its later state is checked by retainedChanged) and tags it, as a relay would
+			retained = append(retained, pk)
+			retainedText = append(retainedText, showPacket(pk))
+			if len(retained) > 64 {
+				retained, retainedText = retained[1:], retainedText[1:]
+			}
 		}
 		calls = append(calls, fmt.Sprintf("%s len=%d", s, rb.Length()))
 		if failed || !done {
@@ -51,6 +57,29 @@ func drain(version int, ctx *protocol.Context, rb *ringbuffer.RingBuffer, chunk 
 		}
 	}
 	return fmt.Sprintf("[w%d: %s]", len(chunk), strings.Join(calls, "; ")), failed
+}
+
+// packets delivered by the streaming decoders of the histories, kept by the "application"
+var retained []*protocol.Packet
+var retainedText []string
+
+// retainedChanged: a delivered packet is the application's: it does not change when the connection (or any other) receives more
+// input, and tagging it (SetMetadata) does not show up in packets decoded elsewhere
+func retainedChanged() string {
+	for i, pk := range retained {
+		if now := showPacket(pk); now != retainedText[i] {
+			return fmt.Sprintf("a delivered packet changed afterwards: was %.160s, is %.160s", retainedText[i], now)
+		}
+	}
+	return ""
+}
+
+func tagRetained() {
+	defer func() { recover() }()
+	if n := len(retained); n > 0 && retained[n-1].Metadata != nil && retained[n-1].Metadata.Values != nil {
+		retained[n-1].SetMetadata("zz-tag", "relayed")
+		retainedText[n-1] = showPacket(retained[n-1])
+	}
 }
 
 func historyCase(e *emitter, rg *rng, nops int) {
@@ -109,6 +138,14 @@ func historyCase(e *emitter, rg *rng, nops int) {
 			if text != stext {
 				e.fail(idx, fmt.Sprintf("stream_local:v%d", c.version), "streaming result differs from the same connection's stream decoded in isolation: "+text[:min(160, len(text))]+" vs "+stext[:min(160, len(stext))])
 			}
+			if d := retainedChanged(); d != "" {
+				e.fail(idx, fmt.Sprintf("delivered_packets_stable:v%d", c.version), d)
+				retained, retainedText = nil, nil
+			}
+			if strings.Contains(text, "7a7a2d746167") || strings.Contains(stext, "7a7a2d746167") {
+				e.fail(idx, fmt.Sprintf("stream_local:v%d", c.version), "a packet decoded from the wire carries a metadata entry that the application had set on ANOTHER packet: "+text[:min(200, len(text))])
+			}
+			tagRetained()
 			if failed {
 				c.rb = ringbuffer.New(16)
 				pendingTail[ci] = nil
@@ -195,6 +232,7 @@ func historyCase(e *emitter, rg *rng, nops int) {
 var tailGz []gzEntry
 
 func genC11(e *emitter, tier string, seed uint64) map[string]interface{} {
+	gzPoolIndependence(e, &rng{seed ^ 0x1111})
 	rg := &rng{seed ^ 0x11}
 	thorough := tier == "thorough"
 	// gzip entries for tails are unknown at tail time (the frame started in an earlier chunk): avoid gzip in partial frames by
